@@ -336,6 +336,107 @@ fn opt_pair(n: usize, f: [u32; 2], a: i64, x: i64, o: i64, kind: &str) -> i64 {
     best
 }
 
+/// Exact optimum for up to three outputs of an OR form (cubes, and exclusive cubes for "sopes"):
+/// a redundant term never pays (it costs a join gate >= 1 and at best shares a term that some
+/// other output pays for anyway), so each output ranges over its irredundant covers by implicant
+/// candidates only.  `None` when the search space is too large to enumerate.
+fn opt_multi_or(n: usize, fs: &[u32], a: i64, x: i64, o: i64, with_ecubes: bool) -> Option<i64> {
+    let mut items: Vec<(u32, i64)> = all_cubes(n)
+        .iter()
+        .map(|c| (tt_of_cube(n, *c), a * gates((c.0.count_ones() + c.1.count_ones()) as usize)))
+        .collect();
+    if with_ecubes {
+        for v in 0..(1u32 << n) {
+            for xn in [false, true] {
+                if v.count_ones() >= 2 {
+                    items.push((tt_of_ecube(n, (v, xn)), x * gates(v.count_ones() as usize)));
+                }
+            }
+        }
+    }
+    // per output: irredundant covers as bit sets over `items`
+    let mut covers: Vec<Vec<u64>> = Vec::new();
+    for &f in fs {
+        let imp: Vec<usize> = (0..items.len()).filter(|&i| items[i].0 != 0 && items[i].0 & !f == 0).collect();
+        if imp.len() > 18 {
+            return None;
+        }
+        let mut cs = Vec::new();
+        for s in 0..(1u32 << imp.len()) {
+            let mut val = 0u32;
+            for (k, &i) in imp.iter().enumerate() {
+                if (s >> k) & 1 != 0 {
+                    val |= items[i].0;
+                }
+            }
+            if val != f {
+                continue;
+            }
+            // irredundant?
+            let mut irr = true;
+            for k in 0..imp.len() {
+                if (s >> k) & 1 != 0 {
+                    let mut v2 = 0u32;
+                    for (k2, &i) in imp.iter().enumerate() {
+                        if k2 != k && (s >> k2) & 1 != 0 {
+                            v2 |= items[i].0;
+                        }
+                    }
+                    if v2 == f {
+                        irr = false;
+                        break;
+                    }
+                }
+            }
+            if irr {
+                let mut bits = 0u64;
+                for (k, &i) in imp.iter().enumerate() {
+                    if (s >> k) & 1 != 0 {
+                        bits |= 1u64 << i;
+                    }
+                }
+                cs.push(bits);
+            }
+        }
+        covers.push(cs);
+    }
+    let total: u128 = covers.iter().map(|c| c.len() as u128).product();
+    if total > 30_000_000 {
+        return None;
+    }
+    let cost_of = |u: u64| -> i64 { (0..items.len()).filter(|&i| (u >> i) & 1 != 0).map(|i| items[i].1).sum() };
+    let joins = |s: u64| -> i64 { let c = s.count_ones() as i64; if c > 1 { o * (c - 1) } else { 0 } };
+    let mut best = i64::MAX;
+    let mut idx = vec![0usize; covers.len()];
+    if covers.iter().any(|c| c.is_empty()) {
+        return None;
+    }
+    loop {
+        let mut u = 0u64;
+        let mut c = 0i64;
+        for (j, &k) in idx.iter().enumerate() {
+            u |= covers[j][k];
+            c += joins(covers[j][k]);
+        }
+        c += cost_of(u);
+        if c < best {
+            best = c;
+        }
+        let mut j = 0;
+        loop {
+            if j == idx.len() {
+                return Some(best);
+            }
+            idx[j] += 1;
+            if idx[j] < covers[j].len() {
+                break;
+            }
+            idx[j] = 0;
+            j += 1;
+        }
+    }
+}
+
 fn oracle_line(line: &str) -> Result<bool, String> {
     let t: Vec<&str> = line.split_whitespace().collect();
     if t.first() == Some(&"mipcand") {
@@ -400,6 +501,8 @@ fn oracle_line(line: &str) -> Result<bool, String> {
         })
     } else if p.tabs.len() == 2 && n <= 2 {
         Some(opt_pair(n, [tt[0], tt[1]], p.a, p.x, p.o, &p.kind))
+    } else if p.kind != "esop" && p.tabs.len() <= 3 && n <= 3 {
+        opt_multi_or(n, &tt, p.a, p.x, p.o, p.kind == "sopes")
     } else {
         None
     };
@@ -477,6 +580,24 @@ fn gen(thorough: bool, seed: u64) -> Vec<String> {
             out.push(format!("mip esop 1 1 1 {}", f.show()));
             out.push(format!("mip esop 2 3 1 {}", f.show()));
         }
+    }
+    // two and three outputs of three variables, unequal gate costs (seed C18-b: the AND and OR
+    // costs swapped only shows with several outputs); optimum by enumeration of the irredundant
+    // covers of each output
+    // (measured on that seed: about 4% of sparse triples with costs 1/3 show it, pairs almost never)
+    let unequal: [(i64, i64, i64); 4] = [(1, 2, 3), (3, 2, 1), (3, 1, 1), (1, 1, 3)];
+    for i in 0..(if thorough { 600 } else { 160 }) {
+        let k = if i % 8 == 7 { 2 } else { 3 };
+        let tabs: Vec<String> = (0..k)
+            .map(|_| {
+                // sparse on-sets keep the number of implicants, hence of covers, small
+                let v = (r.next() & r.next()) & 0xff;
+                Tab::new(3, vec![v]).show()
+            })
+            .collect();
+        let (a, x, o) = unequal[i % 4];
+        let kind = if i % 9 == 4 { "sopes" } else { "sop" };
+        out.push(format!("mip {} {} {} {} {}", kind, a, x, o, tabs.join(" ")));
     }
     // random lists up to n = 4 with 1..3 outputs: exactness only
     for _ in 0..(if thorough { 60 } else { 8 }) {
